@@ -974,9 +974,11 @@ impl Chdir for VirtualSystem {
         let path = Path::new(UnixStr::from_bytes(path.to_bytes()));
         let inode = self.resolve_existing_file(AT_FDCWD, path, /* follow links */ true)?;
         if matches!(&inode.borrow().body, FileBody::Directory { .. }) {
-            let mut process = self.current_process_mut();
-            let new_path = process.cwd.join(path);
-            process.chdir(new_path);
+            // The working directory is recorded by its physical path, which
+            // is what `getcwd` returns.
+            let new_path = self.current_process().cwd.join(path);
+            let new_path = self.state.borrow().file_system.canonicalize(&new_path)?;
+            self.current_process_mut().chdir(new_path);
             Ok(())
         } else {
             Err(Errno::ENOTDIR)
@@ -3693,6 +3695,16 @@ mod tests {
         let result = system.chdir(c"/dir");
         assert_eq!(result, Ok(()));
         assert_eq!(system.current_process().cwd, Path::new("/dir"));
+    }
+
+    #[test]
+    fn chdir_records_physical_path() {
+        let system = system_with_symlink();
+        save_symlink(&system, "/dir_link", "some");
+        assert_eq!(system.chdir(c"/dir_link/../dir_link/."), Ok(()));
+        assert_eq!(system.current_process().cwd, Path::new("/some"));
+        assert_eq!(system.chdir(c".."), Ok(()));
+        assert_eq!(system.current_process().cwd, Path::new("/"));
     }
 
     #[test]
